@@ -10,7 +10,7 @@ from .core import cstr, cbool, clist
 IMPORTS = ("From Coq Require Import List NArith ZArith QArith Qcanon Bool Arith.\nImport ListNotations.\n"
            "Require Import Mat ShowM.\nOpen Scope N_scope.")
 NUM = ["a", "b", "c"]
-CAT = {"A": ["x", "y", "z"], "B": ["u", "v"], "G": ["p", "q", "_r", "s"]}      # a level name with a leading underscore included (two underscores mark metadata keys in the code)
+CAT = {"A": ["x", "y", "z"], "B": ["u", "v"], "G": ["p", "q", "_r", "s"], "H": ["", "k", "m"]}      # a level name with a leading underscore included (two underscores mark metadata keys in the code)
 VALS = [-2, -1, 0, 0.5, 1, 2, 3, 4, 0.25, -0.5]
 
 
@@ -225,7 +225,7 @@ def column_from_label(label, frame: Frame, kept, scale):
     if label == "Intercept":
         return [float(v) for v in vals]
     for part in label.split(":"):
-        m = re.fullmatch(r"(\w+)\[(?:T\.)?(\w+)\]", part)
+        m = re.fullmatch(r"(\w+)\[(?:T\.)?(\w*)\]", part)
         if m:
             col = frame.cat[m.group(1)]
             vals = [None if v is None else v * (1 if col[i] == m.group(2) else 0) for v, i in zip(vals, kept)]
